@@ -222,6 +222,8 @@ func (e *Expr) CompileExpr(terms ast.Expr, env0 *types.Env) compiler.Closure {
 
 func (e *Expr) makeCallable(closure compiler.Closure, env0 *types.Env) Callable {
 	return func(v interface{}) (vl *val.Val, err error) {
+		// 运行期错误(下标越界, key 不存在, 除零, 非法正则, 宿主函数 panic)通过 error 返回
+		defer e.backStrace("eval", &err)
 		env1, ok := v.(*val.Env)
 		if !ok {
 			env1, err = conv.ValEnvOf(v)
